@@ -15,7 +15,10 @@ from .heap import klass, KLASSES
 @klass("twisted.Deferred")
 class _:
     external = True
-    fields = {"called": "bool", "failed": "bool", "owner": ("int", False)}     # owner: ghost, id of the thing it answers
+    # owner: ghost, id of the thing it answers.  promise: ghost rank of what a success of this Deferred means to the
+    # callbacks attached to it (a refinement of Deferred[T]); a callback declaring `expects=k` may only be attached where
+    # promise >= k is proved
+    fields = {"called": "bool", "failed": "bool", "owner": ("int", False), "promise": ("int", False)}
 
 
 @klass("twisted.DelayedCall")
@@ -34,7 +37,14 @@ class _:
 class _:
     external = True
     # bare: ghost, True when the object is a bare exception instance standing where a Failure is expected
-    fields = {"exc_tag": ("int", False), "bare": ("bool", False)}
+    fields = {"exc_tag": ("int", False), "bare": ("bool", False), "value": ("Ref_ExcValue", False)}
+
+
+@klass("twisted.ExcValue")
+class _:
+    external = True
+    # the exception object wrapped by a Failure, as far as afkak looks into it
+    fields = {"deferred": ("Ref_Deferred", False)}
 
 
 @klass("twisted.Opaque")
@@ -158,6 +168,7 @@ def deferred_method(eng, d, attr, args, kwargs, fr, node):
     if attr in ('addCallback', 'addErrback', 'addBoth', 'addCallbacks', 'addTimeout'):
         # registering on a fired Deferred runs the callable now
         eng.B.checkpoint(eng, 'call:%s#%d' % (attr, site_ordinal(eng, node, attr)))
+        check_expects(eng, d, attr, args, kwargs, node)
         if attr == 'addCallbacks' and (len(args) < 2):
             args = [kwargs.get('callback', args[0] if args else None), kwargs.get('errback')] 
         called = H.heap_read(eng, d, 'called')
@@ -200,6 +211,22 @@ def run_callback_now(eng, d, target, fr, node):
         eng.B.apply_entry_point(eng, fi, c, 'callback of fired Deferred')
     else:
         H.external_call(eng, 'callback on fired Deferred')
+
+
+def check_expects(eng, d, attr, args, kwargs, node):
+    """success callbacks of ours that declare `expects=k` need a Deferred whose success promises at least k"""
+    from .engine import PyObj
+    from .contracts import CONTRACTS
+    if attr not in ('addCallback', 'addCallbacks', 'addBoth'):
+        return
+    target = args[0] if args else kwargs.get('callback')
+    fi = getattr(target, 'payload', None) if isinstance(target, PyObj) and target.kind in ('closure', 'bound', 'func') else None
+    c = CONTRACTS.get(getattr(fi, 'qualname', None))
+    if c is None or not c.extra.get('expects'):
+        return
+    n = site_ordinal(eng, node, attr)
+    eng.prove('pre@%s#%d:promise-covers-%s' % (attr, n, fi.node.name), H.heap_read(eng, d, 'promise').t >= c.extra['expects'],
+              kind='pre', props=c.props)
 
 
 def describe_callable(a):
@@ -492,6 +519,14 @@ def install(eng):
         return vint(sum(v for k, v in e.callcount.items() if k.endswith('.' + name) or k == name))
 
     eng.builtin_names['n_calls'] = PyObj('builtin', b_n_calls)
+
+    def b_promise(e, args, kwargs, fr, node):
+        d = args[0]
+        if d.ty[0] == 'opt':
+            d = T.opt_val(d)
+        return H.heap_read(e, d, 'promise')
+
+    eng.builtin_names['promise'] = PyObj('builtin', b_promise)
 
     def b_owner(e, args, kwargs, fr, node):
         d = args[0]
